@@ -2,6 +2,9 @@ package cors
 
 import (
 	"fmt"
+	restful "github.com/emicklei/go-restful/v3"
+	"io"
+	stdlog "log"
 	"strings"
 
 	"verifharness/internal/drv"
@@ -392,6 +395,21 @@ func CheckPurity(run *report.Run, nCases int) error {
 			if len(obs[i].Extra) > 0 {
 				run.Distinct["cors|"+c.F.Sx().String()+"|"+c.Table.Sx().String()+"|"+c.Reqs[i].ReqSx(Obs{}).String()] = true
 			}
+			// … and with trace logging enabled
+			restful.TraceLogger(stdlog.New(io.Discard, "", 0))
+			ot, _, err := Execute(&one)
+			restful.EnableTracing(false)
+			if err != nil {
+				return err
+			}
+			if x, y := fmt.Sprintf("%+v", o1[0]), fmt.Sprintf("%+v", ot[0]); x != y && bad < 3 {
+				bad++
+				run.AddViolation(report.Violation{Kind: "counterexample",
+					What:  "C19: a request through the CORS filter is answered differently when trace logging is enabled",
+					Case:  []string{one.Line(0, o1)},
+					Human: map[string]interface{}{"case": one.Human(o1)}, Real: "trace off: " + x, Model: "trace on:  " + y})
+			}
+			run.Count("cors-filter:traced-replays")
 			a, b := fmt.Sprintf("%+v", obs[i]), fmt.Sprintf("%+v", o1[0])
 			if a != b && bad < 3 {
 				bad++
